@@ -1131,6 +1131,12 @@ func Run(r *common.Run) error {
 		}
 	}
 
+	// ---- several sessions on one feature value ----
+	genConcurrent(r, rnd)
+	if r.Race() {
+		return nil
+	}
+
 	// ---- client role, scripted mechanisms: exhaustive over short peer scripts ----
 	depth := r.Pick(3, 4)
 	scripts := cliStepScripts()
@@ -1382,6 +1388,8 @@ func replayLine(r *common.Run, l string) error {
 		return out, nil
 	}
 	switch {
+	case f[0] == "concs" || f[0] == "concc":
+		return replayConc(r, f)
 	case f[0] == "clie" && len(f) == 7:
 		st, err := steps(f[5])
 		if err != nil {
